@@ -58,9 +58,9 @@ def doOps : List String :=
   ["apiVersions", "listOffsets", "produce", "metadata", "brokers", "controller", "findCoordinator", "heartbeat", "joinGroup", "leaveGroup",
    "listGroups", "offsetCommit", "offsetFetch", "syncGroup", "saslHandshake", "saslAuthenticate", "createTopics", "deleteTopics"]
 
-/-- ReadBatchWith skips the rest of the frame on kafka errors and the message set of a response at the high watermark
-(regenerated facts) -/
-def fetchFixed : Bool := has "ReadBatchWith" "discardOnKafkaError" && fetchSkipsAtWatermark
+/-- ReadBatchWith skips the rest of the frame on kafka errors and the message set of a response at the high watermark,
+Batch.close minds the error of its final discard (regenerated facts) -/
+def fetchFixed : Bool := has "ReadBatchWith" "discardOnKafkaError" && fetchSkipsAtWatermark && batchCloseMindsDiscard
 
 /-- the syntactic condition under which `opRead` can only end non-failed with the frame fully consumed -/
 def OpSpec.good (o : OpSpec) (v : Nat) : Bool :=
